@@ -55,7 +55,9 @@ VARIABLES
   call,      \* [CallIds -> [pc, st, slot, ctx, tmo, ff, exp, rv, nd]]
   writeQ,    \* [Clients -> Seq([k, q])]           pc.writeQ
   inFlight,  \* [Clients -> Int]                   pc.inFlight
-  cli,       \* [Clients -> [conn, shut, fin, w2r, closed, hscut]]
+  cli,       \* [Clients -> [conn, shut, fin, w2r, closed, hscut, linger]]
+             \*   linger: the clientConn object of a failed connect may still be in client.conns
+             \*   (goConnect is between continueRunning and removeConnection)
   c2s, s2c,  \* [Clients -> Seq(packet)]           transport, FIFO
   link,      \* [Clients -> {"ok","broken"}]       state of the current transport
   proxy,     \* [Clients -> {"pass","refuse","hold"}]  environment: can a new transport be established
@@ -93,7 +95,8 @@ SentCalls(c) == {id \in Ids(c) : call[id].st = "sent"}
 
 InitCall == [pc |-> "new", st |-> "none", slot |-> Empty, ctx |-> "live",
              tmo |-> FALSE, ff |-> FALSE, exp |-> FALSE, rv |-> Empty, nd |-> 0]
-InitCli  == [conn |-> "idle", shut |-> FALSE, fin |-> FALSE, w2r |-> FALSE, closed |-> FALSE, hscut |-> FALSE]
+InitCli  == [conn |-> "idle", shut |-> FALSE, fin |-> FALSE, w2r |-> FALSE, closed |-> FALSE, hscut |-> FALSE,
+             linger |-> FALSE]
 InitSConn == [st |-> "none", rl |-> NoId, wq |-> <<>>]
 InitSrv  == [st |-> "none", out |-> "none", live |-> FALSE]
 
@@ -152,19 +155,26 @@ SetupExpired(id) ==
   /\ call' = [call EXCEPT ![id].pc = "ret", ![id].rv = Res("deadline", NoId), ![id].exp = TRUE]
   /\ UNCHANGED <<writeQ, inFlight, cli, c2s, s2c, link, proxy, sconn, srv, orph, pool, mem, srvSt, pend>>
 
-(* client.go setupCall + client_conn.go setupCallLocked                    *)
+(* client.go setupCall + client_conn.go setupCallLocked.  LingeringConn:   *)
+(* right after a failed connect that left no calls, the old clientConn     *)
+(* (waitingToReconnect = TRUE) is still registered for a moment; a call    *)
+(* that finds it behaves as if the connection were waiting to reconnect.   *)
 SetupCall(id) ==
   LET c == OwnerOf(id) IN
   /\ call[id].pc = "inv"
-  /\ IF cli[c].closed
-     THEN /\ call' = [call EXCEPT ![id].pc = "ret", ![id].rv = Res("clientClosed", NoId)]
-          /\ UNCHANGED <<writeQ, cli>>
-     ELSE IF call[id].ff /\ cli[c].w2r /\ cli[c].conn # "idle"
-     THEN /\ call' = [call EXCEPT ![id].pc = "ret", ![id].rv = Res("closedNoSE", NoId)]
-          /\ UNCHANGED <<writeQ, cli>>
-     ELSE /\ call' = [call EXCEPT ![id].pc = "wait", ![id].st = "unsent"]
-          /\ writeQ' = [writeQ EXCEPT ![c] = Append(@, ReqP(id))]
-          /\ cli' = [cli EXCEPT ![c].conn = IF @ = "idle" THEN "connecting" ELSE @]
+  /\ \E old \in (IF cli[c].conn = "idle" /\ cli[c].linger THEN {TRUE, FALSE} ELSE {FALSE}) :
+       LET w2r == IF old THEN TRUE ELSE cli[c].w2r /\ cli[c].conn # "idle" IN
+       IF cli[c].closed
+       THEN /\ call' = [call EXCEPT ![id].pc = "ret", ![id].rv = Res("clientClosed", NoId)]
+            /\ UNCHANGED <<writeQ, cli>>
+       ELSE IF call[id].ff /\ w2r
+       THEN /\ call' = [call EXCEPT ![id].pc = "ret", ![id].rv = Res("closedNoSE", NoId)]
+            /\ UNCHANGED <<writeQ, cli>>
+       ELSE /\ call' = [call EXCEPT ![id].pc = "wait", ![id].st = "unsent"]
+            /\ writeQ' = [writeQ EXCEPT ![c] = Append(@, ReqP(id))]
+            /\ cli' = [cli EXCEPT ![c].conn = IF @ = "idle" THEN "connecting" ELSE @,
+                               ![c].w2r = IF cli[c].conn = "idle" THEN old ELSE @,
+                               ![c].linger = FALSE]
   /\ UNCHANGED <<inFlight, c2s, s2c, link, proxy, sconn, srv, orph, pool, mem, srvSt, pend>>
 
 (* sendLoop + moveRequestsToSendLocked: the whole queue is taken under the *)
@@ -276,7 +286,8 @@ McEffect(c, goodHandshake) ==
     /\ LET cont == ~cli[c].closed /\ McRequeued(c, late) # {} IN
        cli' = [cli EXCEPT ![c].shut = FALSE, ![c].fin = FALSE, ![c].hscut = FALSE,
                           ![c].conn = IF cont THEN "connecting" ELSE "idle",
-                          ![c].w2r = IF ~cont THEN FALSE ELSE IF goodHandshake THEN @ ELSE TRUE]
+                          ![c].w2r = IF ~cont THEN FALSE ELSE IF goodHandshake THEN @ ELSE TRUE,
+                          ![c].linger = ~cont /\ ~goodHandshake /\ ~cli[c].closed]
     /\ s2c' = [s2c EXCEPT ![c] = <<>>]
 
 (* goConnect after run() returned from an established connection, or when *)
@@ -467,8 +478,8 @@ OrphanDrop(id) ==
 
 (* API boundary: Server.Shutdown() (graceful) and Server.Close(): called    *)
 (* (logged), effective, returned.                                           *)
-SrvShutdown ==
-  /\ srvSt = "up" /\ Cmd("shutdown", "server", "") \notin pend
+SrvShutdown ==      \* (calling Shutdown() after Close() is legal and has no effect)
+  /\ Cmd("shutdown", "server", "") \notin pend
   /\ pend' = pend \cup {Cmd("shutdown", "server", "")}
   /\ UNCHANGED <<call, writeQ, inFlight, cli, c2s, s2c, link, proxy, sconn, srv, orph, pool, mem, srvSt>>
 SrvShutdownDo ==
